@@ -117,8 +117,11 @@ def check(ctx):
                         verdicts.append((True, 'initialises the object under construction'))
                     elif fn.fq in entry_fq:
                         # Builder.build: only _recipe and what hangs below it (build-local)
-                        if r[1] and r[1][0] == '_recipe':
-                            verdicts.append((True, 'Builder state _recipe (see C12.builder)'))
+                        own_state = {t.attr for st_ in fn.node.body if isinstance(st_, (ast.Assign, ast.AnnAssign))
+                                     for t in (st_.targets if isinstance(st_, ast.Assign) else [st_.target])
+                                     if isinstance(t, ast.Attribute) and isinstance(t.value, ast.Name) and t.value.id == 'self'}
+                        if r[1] and (r[1][0] == '_recipe' or r[1][0] in own_state):
+                            verdicts.append((True, f'Builder state {r[1][0]}, (re)assigned by every build (see C12.builder)'))
                         else:
                             verdicts.append((False, f'entry point mutates its receiver at {".".join(r[1])}'))
                     else:
